@@ -458,3 +458,245 @@ Example date_example :
   http_to_time (s2l "Tue, 29 Feb 2000 00:00:00 GMT") = Ok 951782400 /\
   http_to_time (s2l "Tue, 29 Feb 1900 00:00:00 GMT") = Raised "ValueError".
 Proof. repeat split; vm_compute; reflexivity. Qed.
+
+(* ================================================================ Part 3 *)
+Definition only_in {A} (names : list string) (o : outcome A) : Prop :=
+  match o with Ok _ => True | Raised e => In e names end.
+
+Lemma hd_rev (s : list Z) d : hd d (rev s) = last s d.
+Proof.
+  induction s as [|x l IH] using rev_ind; [reflexivity|].
+  rewrite rev_app_distr, last_last. reflexivity.
+Qed.
+
+Lemma lstrip_id s : is_space (hd 0 s) = false -> lstrip s = s.
+Proof. destruct s as [|c r]; cbn [hd lstrip]; [reflexivity|]. intros ->. reflexivity. Qed.
+
+Lemma stripped_strip s : stripped s = true -> strip s = s.
+Proof.
+  unfold stripped, strip. intros H. apply andb_true_iff in H as [H1 H2].
+  apply negb_true_iff in H1, H2.
+  rewrite (lstrip_id s H1). rewrite lstrip_id by (rewrite hd_rev; exact H2).
+  apply rev_involutive.
+Qed.
+
+Lemma strip_space_cons s : strip (32 :: s) = strip s.
+Proof. reflexivity. Qed.
+
+Lemma cons_head_nonempty c l : cons_head c l <> [].
+Proof. destruct l; discriminate. Qed.
+
+Lemma split_q_nonempty s : split_q s <> [].
+Proof.
+  destruct s as [|c [|c2 [|c3 r3]]]; cbn [split_q]; try discriminate;
+    try apply cons_head_nonempty.
+  destruct (is_q3 c c2 c3); [discriminate|apply cons_head_nonempty].
+Qed.
+
+Lemma split_q_nocontain s : contains_q s = false -> split_q s = [s].
+Proof.
+  induction s as [|c r IH]; intros H; [reflexivity|].
+  destruct r as [|c2 [|c3 r3]].
+  - reflexivity.
+  - reflexivity.
+  - cbn [contains_q] in H. apply orb_false_iff in H as [H1 H2].
+    change (split_q (c :: c2 :: c3 :: r3))
+      with (if is_q3 c c2 c3 then [] :: split_q r3
+            else cons_head c (split_q (c2 :: c3 :: r3))).
+    rewrite H1, (IH H2). reflexivity.
+Qed.
+
+Lemma split_q_app a b : contains_q a = false ->
+  split_q (a ++ 59 :: 113 :: 61 :: b) = a :: split_q b.
+Proof.
+  induction a as [|c a' IH]; intros H; [reflexivity|].
+  destruct a' as [|c2 [|c3 a'']].
+  - cbn [app].
+    change (split_q (c :: 59 :: 113 :: 61 :: b))
+      with (if is_q3 c 59 113 then [] :: split_q (61 :: b)
+            else cons_head c (split_q (59 :: 113 :: 61 :: b))).
+    replace (is_q3 c 59 113) with false
+      by (unfold is_q3; destruct (c =? 59); reflexivity).
+    reflexivity.
+  - cbn [app].
+    change (split_q (c :: c2 :: 59 :: 113 :: 61 :: b))
+      with (if is_q3 c c2 59 then [] :: split_q (113 :: 61 :: b)
+            else cons_head c (split_q ([c2] ++ 59 :: 113 :: 61 :: b))).
+    replace (is_q3 c c2 59) with false
+      by (unfold is_q3; destruct (c =? 59); destruct (c2 =? 113); reflexivity).
+    rewrite IH by reflexivity. reflexivity.
+  - cbn [contains_q] in H. apply orb_false_iff in H as [H1 H2].
+    cbn [app].
+    change (split_q (c :: c2 :: c3 :: a'' ++ 59 :: 113 :: 61 :: b))
+      with (if is_q3 c c2 c3 then [] :: split_q (a'' ++ 59 :: 113 :: 61 :: b)
+            else cons_head c (split_q ((c2 :: c3 :: a'') ++ 59 :: 113 :: 61 :: b))).
+    rewrite H1, (IH H2). reflexivity.
+Qed.
+
+Lemma no59_contains_q s : ~ In 59 s -> contains_q s = false.
+Proof.
+  induction s as [|c r IH]; intros H; [reflexivity|].
+  destruct r as [|c2 [|c3 r3]]; try reflexivity.
+  cbn [contains_q]. apply orb_false_iff. split.
+  - unfold is_q3. replace (c =? 59) with false; [reflexivity|].
+    symmetry. apply Z.eqb_neq. intros E. apply H. left. auto.
+  - apply IH. intros I. apply H. right. exact I.
+Qed.
+
+Lemma contains_q_space n : contains_q (32 :: n) = contains_q n.
+Proof. destruct n as [|a [|b r]]; reflexivity. Qed.
+
+Lemma lz_eqb_app_false p x r : lz_eqb p (p ++ x :: r) = false.
+Proof.
+  apply lz_eqb_neq. intros E. apply (f_equal (@List.length Z)) in E.
+  rewrite app_length in E. cbn [List.length] in E. lia.
+Qed.
+
+Lemma split_join_comma : forall t x,
+  ~ In 44 x -> Forall (fun y => ~ In 44 y) t ->
+  split_on 44 (join [44; 32] (x :: t)) = x :: map (cons 32) t.
+Proof.
+  induction t as [|y t IH]; intros x Hx Ht.
+  - cbn [join map]. apply split_on_nosep. exact Hx.
+  - inversion Ht as [|y' t' Hy Ht']; subst.
+    rewrite join_cons2. cbn [app]. rewrite split_on_app by exact Hx.
+    cbn [split_on]. change (32 =? 44) with false. cbv iota.
+    rewrite (IH y Hy Ht'). reflexivity.
+Qed.
+
+Section NegotiationProofs.
+  Variable Q : Type.
+  Variable float : list Z -> outcome Q.
+  Variable str_q : Q -> list Z.
+  Variable one : Q.
+  Hypothesis float_str : forall q, float (str_q q) = Ok q.
+  Hypothesis str_q_plain : forall q, ~ In 44 (str_q q) /\ ~ In 59 (str_q q).
+  Hypothesis float_only : forall s, only "ValueError" (float s).
+
+  Notation nego_item := (nego_item Q float one).
+  Notation nego_items := (nego_items Q float one).
+  Notation parse_negotiation := (parse_negotiation Q float one).
+  Notation render_nego_item := (render_nego_item Q str_q).
+  Notation render_negotiation := (render_negotiation Q str_q).
+  Notation nego_value := (nego_value Q one).
+
+  Lemma nego_item_plain item :
+    contains_q item = false -> nego_item item = Ok (strip item, one).
+  Proof.
+    intros H. unfold HeaderCodec.nego_item. rewrite split_q_nocontain by exact H.
+    cbn [index nth_error bind]. rewrite lz_eqb_refl. reflexivity.
+  Qed.
+
+  Lemma nego_item_q p tok q :
+    contains_q p = false -> ~ In 59 tok -> float tok = Ok q ->
+    nego_item (p ++ 59 :: 113 :: 61 :: tok) = Ok (strip p, q).
+  Proof.
+    intros Hp Ht Hf. unfold HeaderCodec.nego_item.
+    rewrite split_q_app by exact Hp.
+    rewrite (split_q_nocontain tok) by (apply no59_contains_q; exact Ht).
+    cbn [index nth_error bind]. rewrite lz_eqb_app_false.
+    rewrite Hf. reflexivity.
+  Qed.
+
+  Lemma nego_item_render pre it :
+    pre = [] \/ pre = [32] -> nego_name_ok (fst it) ->
+    nego_item (pre ++ render_nego_item it) = Ok (nego_value it).
+  Proof.
+    intros Hpre (H44 & Hq & Hs). destruct it as [n oq]. cbn [fst snd] in *.
+    assert (Hc : contains_q (pre ++ n) = false).
+    { destruct Hpre; subst pre; cbn [app]; [|rewrite contains_q_space]; exact Hq. }
+    assert (Hst : strip (pre ++ n) = n).
+    { destruct Hpre; subst pre; cbn [app]; [|rewrite strip_space_cons];
+        apply stripped_strip; exact Hs. }
+    unfold HeaderCodec.render_nego_item, HeaderCodec.nego_value. cbn [fst snd].
+    destruct oq as [q|].
+    - change (s2l ";q=") with [59; 113; 61]. rewrite app_assoc. cbn [app].
+      rewrite (nego_item_q (pre ++ n) (str_q q) q Hc); [rewrite Hst; reflexivity| |].
+      + apply str_q_plain.
+      + apply float_str.
+    - rewrite nego_item_plain by exact Hc. rewrite Hst. reflexivity.
+  Qed.
+
+  Lemma render_item_no44 it :
+    ~ In 44 (fst it) -> ~ In 44 (render_nego_item it).
+  Proof.
+    intros H. unfold HeaderCodec.render_nego_item. destruct (snd it) as [q|]; [|exact H].
+    intros I. apply in_app_or in I as [I|I]; [exact (H I)|].
+    apply in_app_or in I as [I|I].
+    - cbn in I. intuition discriminate.
+    - exact (proj1 (str_q_plain q) I).
+  Qed.
+
+  Lemma nego_items_tail items :
+    Forall (fun it => nego_name_ok (fst it)) items ->
+    nego_items (map (cons 32) (map render_nego_item items)) =
+    Ok (map nego_value items).
+  Proof.
+    induction items as [|it items IH]; intros H; [reflexivity|].
+    inversion H as [|it' items' Hit Hitems]; subst.
+    cbn [map HeaderCodec.nego_items].
+    change (32 :: render_nego_item it) with ([32] ++ render_nego_item it).
+    rewrite nego_item_render by (auto). cbn [bind].
+    rewrite (IH Hitems). reflexivity.
+  Qed.
+
+  Theorem negotiation_roundtrip items :
+    items <> [] -> Forall (fun it => nego_name_ok (fst it)) items ->
+    parse_negotiation (render_negotiation items) = Ok (map nego_value items).
+  Proof.
+    intros Hne H. destruct items as [|it items]; [contradiction|].
+    inversion H as [|it' items' Hit Hitems]; subst.
+    unfold HeaderCodec.parse_negotiation, HeaderCodec.render_negotiation.
+    change (s2l ", ") with [44; 32]. cbn [map].
+    rewrite split_join_comma.
+    - cbn [HeaderCodec.nego_items].
+      change (render_nego_item it) with ([] ++ render_nego_item it) at 1.
+      rewrite nego_item_render by (auto). cbn [bind].
+      rewrite (nego_items_tail items Hitems). reflexivity.
+    - apply render_item_no44. apply Hit.
+    - apply Forall_forall. intros y Hy. apply in_map_iff in Hy as (it2 & <- & Hin).
+      apply render_item_no44. rewrite Forall_forall in Hitems.
+      apply (Hitems it2 Hin).
+  Qed.
+
+  (* the empty list is written as the empty string, which reads as one item *)
+  Lemma negotiation_empty :
+    parse_negotiation (render_negotiation []) = Ok [([], one)].
+  Proof. reflexivity. Qed.
+
+  Lemma nego_item_total item : exists v, nego_item item = Ok v.
+  Proof.
+    unfold HeaderCodec.nego_item.
+    destruct (split_q item) as [|p0 t] eqn:E; [exfalso; exact (split_q_nonempty item E)|].
+    cbn [index nth_error bind].
+    destruct (lz_eqb p0 item); [eexists; reflexivity|].
+    destruct t as [|p1 t']; cbn [index nth_error bind].
+    - eexists. reflexivity.
+    - pose proof (float_only p1) as Hf. destruct (float p1) as [q|e].
+      + cbn [catch bind]. eexists. reflexivity.
+      + cbn in Hf. subst e. eexists. reflexivity.
+  Qed.
+
+  Theorem parse_negotiation_total s : exists v, parse_negotiation s = Ok v.
+  Proof.
+    unfold HeaderCodec.parse_negotiation.
+    induction (split_on 44 s) as [|i t IH]; [eexists; reflexivity|].
+    cbn [HeaderCodec.nego_items].
+    destruct (nego_item_total i) as [v ->]. destruct IH as [vs ->].
+    eexists. reflexivity.
+  Qed.
+End NegotiationProofs.
+
+Example negotiation_example :
+  parse_negotiation _ float_tok None
+    (render_negotiation _ str_tok
+       [(s2l "gzip", Some (Some (s2l "1.0"))); (s2l "text/html;level=1", None);
+        (s2l "*", Some (Some (s2l "0")))])
+  = Ok [(s2l "gzip", Some (s2l "1.0")); (s2l "text/html;level=1", None);
+        (s2l "*", Some (s2l "0"))]
+  /\ nego_name_ok (s2l "text/html;level=1").
+Proof.
+  split; [vm_compute; reflexivity|].
+  repeat split; try (vm_compute; reflexivity).
+  vm_compute. intuition discriminate.
+Qed.
